@@ -63,12 +63,14 @@ def proj(pid: str):
 
     def ret(g: Group):
         return g.ret if g.ret == 'ok' else 'err'
+    def last_of(g: Group):
+        return tuple(sorted(g.state.get('last', {}).items()))
     if pid in ('C01', 'C03'):
-        return lambda g: (tuple(sorted(g.execs)), jobs_of(g), g.now)
+        return lambda g: (tuple(sorted(g.execs)), jobs_of(g), g.now, last_of(g))
     if pid == 'C02':
         return lambda g: (ret(g), tuple(sorted(g.execs)), jobs_of(g))
     if pid == 'C07':
-        return lambda g: (ret(g), tuple(sorted(g.cbs)), jobs_of(g), tuple(g.state['store']))
+        return lambda g: (ret(g), tuple(sorted(g.cbs)), jobs_of(g), tuple(g.state['store']), last_of(g))
     if pid == 'C08':
         return lambda g: (tuple(sorted(g.execs)), jobs_of(g))
     if pid == 'C09':
